@@ -47,6 +47,18 @@ Proof. unfold probe_reply. rewrite firstn_length. lia. Qed.
 
 Ltac ans := apply res_ok_same; [assumption|apply mk_answer_ok; [assumption|try small_len]].
 
+Lemma cstr_len s : (length (cstr s) <= length s)%nat.
+Proof. induction s as [|a s IH]; cbn; [lia|]. destruct (a =? 0); cbn; lia. Qed.
+
+(* the name handed to tunnel_dns fits struct query.name[256] (255 chars + NUL) *)
+Lemma dns_decode_query_name buf plen q : dq_q (dns_decode_query buf plen) = Some q -> (length (q_name q) <= 255)%nat.
+Proof.
+  unfold dns_decode_query. cbv zeta.
+  repeat (match goal with |- dq_q (if ?c then _ else _) = _ -> _ => destruct c; [discriminate|] end).
+  cbn [dq_q]. intros E. inversion E; subst. cbn [q_name].
+  etransitivity; [apply cstr_len|]. rewrite firstn_length. unfold name_size. lia.
+Qed.
+
 Section Oracles.
 Variable login : list N -> N -> list N.
 Variable unz : list N -> option (list N).
@@ -268,18 +280,6 @@ Proof.
 Qed.
 
 (* ---- recv_datagram ------------------------------------------------------------------------------------------ *)
-
-Lemma cstr_len s : (length (cstr s) <= length s)%nat.
-Proof. induction s as [|a s IH]; cbn; [lia|]. destruct (a =? 0); cbn; lia. Qed.
-
-(* the name handed to tunnel_dns fits struct query.name[256] (255 chars + NUL) *)
-Lemma dns_decode_query_name buf plen q : dq_q (dns_decode_query buf plen) = Some q -> (length (q_name q) <= 255)%nat.
-Proof.
-  unfold dns_decode_query. cbv zeta.
-  repeat (match goal with |- dq_q (if ?c then _ else _) = _ -> _ => destruct c; [discriminate|] end).
-  cbn [dq_q]. intros E. inversion E; subst. cbn [q_name].
-  etransitivity; [apply cstr_len|]. rewrite firstn_length. unfold name_size. lia.
-Qed.
 
 Lemma recv_datagram_ok c st now rnd from dest packet : state_ok st -> (length packet <= K64)%nat ->
   res_ok st (recv_datagram login unz c st now rnd from dest packet).
